@@ -21,6 +21,9 @@ func catalogue(tier string) []cfg {
 		if n >= 7 && b > 2 && k.proto != "ks-shared" && k.proto != "bgv-refresh" && k.proto != "ckks-refresh" {
 			b = 2
 		}
+		if !th && n >= 8 && k.proto != "ks-shared" && k.proto != "bgv-refresh" {
+			b = 1 // quick: the two-departure cap at 8 parties only for one protocol per layer
+		}
 		k.n, k.mode, k.bound = n, mp.LeftDeep, b
 		return k
 	}
@@ -251,6 +254,30 @@ func catalogue(tier string) []cfg {
 					}
 					r = append(r, full(cfg{proto: "ckks-transform", chain: x.in, ntt: true, n: n, lin: 1, lsh: 0, lout: 1, sigma: 1 << 10, logSlots: ls, logScale: x.logScale, inScale: x.logScale - 6, tf: "nil", batched: true, outChain: x.out, outVia: via}))
 				}
+			}
+		}
+	}
+	// high-precision world: scale 2^90 with dyadic, non-dyadic (> 53 significant bits) and rescaled input scales
+	for _, sk := range []string{"", "nd", "rescaled"} {
+		for _, n := range []int{1, 2, 3} {
+			for _, off := range []int{0, 1, 2} {
+				for _, ls := range []int{3, 1} {
+					if ls == 1 && off != 0 {
+						continue
+					}
+					sg := sigmas[(n+off)%3]
+					r = append(r, full(cfg{proto: "ckks-refresh", chain: mp.ChainCK90, ntt: true, n: n, lin: off, lsh: -1, lout: []int{-1, 2, 1}[off], sigma: sg, logSlots: ls, logScale: 90, tf: "nil", batched: true, scaleKind: sk}))
+					if off != 1 {
+						r = append(r, full(cfg{proto: "ckks-e2s", chain: mp.ChainCK90, ntt: true, n: n, lin: off, lsh: -1, lout: -1, sigma: sg, logSlots: ls, logScale: 90, batched: true, scaleKind: sk}))
+						r = append(r, full(cfg{proto: "ckks-s2e", chain: mp.ChainCK90, ntt: true, n: n, lin: off, lsh: -1, lout: 3, logSlots: ls, logScale: 90, batched: true, scaleKind: sk}))
+					}
+				}
+			}
+			if n == 1 {
+				continue
+			}
+			for _, f := range [][3]interface{}{{"id", true, true}, {"perm", true, true}, {"scale", true, true}, {"perm", false, false}, {"scale", false, false}} {
+				r = append(r, full(cfg{proto: "ckks-transform", chain: mp.ChainCK90, ntt: true, n: n, lin: 0, lsh: -1, lout: -1, logSlots: 3, logScale: 90, tf: f[0].(string), dec: f[1].(bool), enc: f[2].(bool), batched: true, scaleKind: sk}))
 			}
 		}
 	}
